@@ -5,12 +5,16 @@ func init() {
 		ID:    "C15",
 		Title: "Introspecting a service reproduces its schema",
 		Kernels: []Kernel{
+			{Name: "answer-of-any-size", Pkg: "queryer", Files: []string{"queryer/c09.go"}, Entry: "VerifAnswerOfAnySize", Mode: "seq",
+				Reach:     []string{"answer of symbolic size accepted"},
+				Functions: []string{"queryer.(*MultiOpQueryer).Query", "queryer.(*MultiOpQueryer).queryBatch", "queryer.(*MultiOpQueryer).fetch", "queryer.(*MultiOpQueryer).sendQueryRequest", "queryer.(*MultiOpQueryer).sendRequest"}},
 			{Name: "introspect", Pkg: "introspection", Files: []string{"introspection/c15.go"}, Entry: "VerifIntrospect", Mode: "seq", Native: true,
 				Quick: map[string]int{"shapes": 6}, Thorough: map[string]int{"shapes": 10},
 				Reach:     []string{"malformed answer rejected", "schema reconstructed"},
 				Functions: []string{"introspection.introspectRemoteSchema", "introspection.parseQueryerResponse", "introspection.parseType", "introspection.parseTypeRef", "introspection.parseArgList", "introspection.parseInputField", "introspection.formatSchema (gqlparser/formatter interpreted)"}},
 		},
 		Assume: []string{
+			"answer-of-any-size: the HTTP client reads a healthy answer whose size is symbolic: pad in [0, 2^30] blanks precede the JSON text (never materialised; io.LimitReader is modelled over that count, other readers drop the blanks as a JSON decoder does)",
 			"the introspection answer is rendered from a descriptor in the shape the GraphQL specification prescribes (defaultValue is a String holding the literal; args on fields and directives; isDeprecated/deprecationReason); type-reference trees of depth <= 5 drawn from 10 wrapper shapes",
 			"typed decoding of the answer = abstract JSON codec driven by the struct tags of remote.go; the final gqlparser.LoadSchema runs natively",
 		},
